@@ -113,14 +113,14 @@ type MetaBlock struct {
 
 // Opts is the options block as written ("" = omitted).
 type Opts struct {
-	LittleEndian string `json:"le,omitempty"`
-	StrPrefix    string `json:"sp,omitempty"`
-	ArrPrefix    string `json:"ap,omitempty"`
-	PadLeft      string `json:"padleft,omitempty"`
-	PadChar      string `json:"padchar,omitempty"`
-	JavaPackage  string `json:"java,omitempty"`
-	GoPackage    string `json:"gopkg,omitempty"`
-	GoModule     string `json:"gomod,omitempty"`
+	LittleEndian string     `json:"le,omitempty"`
+	StrPrefix    string     `json:"sp,omitempty"`
+	ArrPrefix    string     `json:"ap,omitempty"`
+	PadLeft      string     `json:"padleft,omitempty"`
+	PadChar      string     `json:"padchar,omitempty"`
+	JavaPackage  string     `json:"java,omitempty"`
+	GoPackage    string     `json:"gopkg,omitempty"`
+	GoModule     string     `json:"gomod,omitempty"`
 	Extra        []ExtraOpt `json:"extra,omitempty"` // further declarations appended verbatim (fault injection)
 }
 
@@ -131,9 +131,11 @@ type ExtraOpt struct {
 
 // Program is a whole DSL file.
 type Program struct {
-	Opts    Opts         `json:"opts"`
-	Metas   []*MetaBlock `json:"metas,omitempty"`
-	Packets []*Packet    `json:"packets"`
+	// MetaLast: MetaData blocks are written after the packets (definitions may come in any order)
+	MetaLast bool         `json:"meta_last,omitempty"`
+	Opts     Opts         `json:"opts"`
+	Metas    []*MetaBlock `json:"metas,omitempty"`
+	Packets  []*Packet    `json:"packets"`
 }
 
 // Config is the effective configuration derived from Opts with the documented defaults.
